@@ -39,10 +39,16 @@ ALPHABET = ["&", "<", ">", '"', "'", "]]>", "&amp;", "&lt;", "<!--", "-->", "<![
             "</MPD>", "é", "ü", "漢字", "\U0001F600", " ", " ", "%", "+", " ", "=", "/", "\\", "$", "$$",
             "$Number$", "{{7*7}}", "{%", "#", ";", "a", "Z", "0", "\t"]
 
-# multi-period streams: key -> [(stream directory, seconds)]
+# multi-period streams: key -> [(stream directory, seconds, content types listed in the Period)]
+# bbb has encrypted (_enc) versions of its video and audio tracks and a subtitle track stored only
+# in the clear; tears, syn1 and syn2 have no encrypted media at all.
+AV, AVT = ("video", "audio"), ("video", "audio", "text")
 MPS_DEFS = {
-    "c05mps": [("bbb", 20), ("tears", 24)],
-    "c05mp3": [("bbb", 12), ("tears", 16), ("bbb", 8)],
+    "c05mps": [("bbb", 20, AVT), ("tears", 24, AV)],
+    "c05mp3": [("bbb", 12, AV), ("tears", 16, AV), ("bbb", 8, AVT)],
+    "c05mpb": [("bbb", 16, AVT), ("bbb", 12, AVT)],
+    "c05mpt": [("bbb", 10, ("video", "text")), ("bbb", 14, ("video", "audio"))],
+    "c05mpy": [("syn1", 12, AV), ("bbb", 12, AVT), ("syn2", 6, AV)],
 }
 _READY = False
 _MANIFESTS = None
@@ -65,7 +71,7 @@ def _add_mps(app):
                 continue
             mps = m.MultiPeriodStream(name=name, title=f"Multi period {name}")
             m.db.session.add(mps)
-            for idx, (directory, secs) in enumerate(periods):
+            for idx, (directory, secs, ctypes) in enumerate(periods):
                 stream = m.Stream.get(directory=directory)
                 prd = m.Period(pid=f"p{idx}", parent=mps, ordering=idx + 1, stream=stream,
                                start=datetime.timedelta(seconds=0), duration=datetime.timedelta(seconds=secs))
@@ -73,7 +79,7 @@ def _add_mps(app):
                 seen = set()
                 for mf in m.MediaFile.search(stream=stream):
                     key = (mf.content_type, mf.track_id)
-                    if key in seen or mf.content_type not in ("video", "audio"):
+                    if key in seen or mf.content_type not in ctypes:
                         continue
                     seen.add(key)
                     m.db.session.add(m.AdaptationSet(period=prd, track_id=mf.track_id, role=ContentRole.MAIN,
@@ -142,10 +148,12 @@ def gen_options(rng, mft: dict, mode: str, stream: str, kind: str) -> list:
         add("acodec", ["mp4a", "ec-3", "any"], .3)
     if "useBaseUrls" in f:
         add("base", ["0", "1"], .5)
-    if "drmSelection" in f and stream in ("bbb",) and kind != "multi":
-        add("drm", ["all", "clearkey", "playready", "marlin", "playready-pro", "playready-cenc", "clearkey-cenc",
-                    "all-moov", "marlin,clearkey", "none"], .45)
-        if q and q[-1][0] == "drm" and "playready" in q[-1][1] or (q and q[-1] == ["drm", "all"]):
+    if "drmSelection" in f:
+        # every DRM system, combinations and locations; streams without encrypted media answer 404
+        # (not a 200 response, outside the property) - bbb and the bbb periods do have them
+        has_enc = stream == "bbb" or (kind == "multi" and any(d == "bbb" for d, _s, _c in MPS_DEFS[stream]))
+        add("drm", DRM_CHOICES, .55 if has_enc else .15)
+        if q and q[-1][0] == "drm" and ("playready" in q[-1][1] or q[-1][1].startswith("all")):
             add("playready__version", ["1.0", "2.0", "3.0", "4.0"], .4)
             add("playready__piff", ["0", "1"], .2)
     if "eventTypes" in f:
@@ -180,7 +188,10 @@ def gen_options(rng, mft: dict, mode: str, stream: str, kind: str) -> list:
     return q
 
 
-STREAMS_SINGLE = ["bbb", "tears", "syn1", "syn2"]
+STREAMS_SINGLE = ["bbb", "bbb", "tears", "syn1", "syn2"]
+DRM_CHOICES = ["all", "clearkey", "playready", "marlin", "playready-pro", "playready-cenc", "playready-moov",
+               "clearkey-cenc", "clearkey-moov", "marlin-cenc", "all-moov", "all-cenc", "marlin,clearkey",
+               "playready,marlin", "clearkey,playready-pro", "none"]
 
 
 def gen_case(rng, hostile: bool = True, force: dict | None = None) -> dict:
